@@ -2,7 +2,7 @@
    Partial: the theorems are about traces of synchronisation events (Race.v) and about the machine
    of Conc.v; that the real code produces such traces is what the correspondence (hook traces under
    the deterministic scheduler) and the Miri runs check. *)
-From CsModel Require Extracted.
+From CsModel Require Extracted AutoTrait.
 From CsModel Require Import Red Conc ConcProofs Race RaceConc.
 From Coq Require Import List Bool.
 Open Scope nat_scope.
@@ -67,3 +67,23 @@ Print Assumptions C07_source_sites_ok.
 Theorem C07_facts_extracted : Extracted.facts_found_C07 = true.
 Proof. reflexivity. Qed.
 Print Assumptions C07_facts_extracted.
+
+(* the USER's state behind a tree — per-node data handed out as Arc<D> clones, the attached resolver, the resolver a
+   text view borrows — is not protected by the library's locks once handed out: what keeps safe code from racing on it
+   are the Send / Sync bounds of the handles and of the views.  With the bounds found in the CURRENT source, whatever
+   can cross a thread boundary carries thread-safe data and (for trees that can be constructed) a thread-safe resolver,
+   and a text view that can cross borrows a resolver that may be shared *)
+Theorem C07_user_state_needs_thread_safe_types : forall a,
+  (AutoTrait.is_send Extracted.node_send_bounds a = true \/ AutoTrait.is_sync Extracted.node_sync_bounds a = true) ->
+  AutoTrait.deep false a = true /\
+  (AutoTrait.constructible Extracted.ctor_resolver_bounds a = true -> AutoTrait.deep true a = true).
+Proof. apply AutoTrait.markers_sound_of. vm_compute. reflexivity. Qed.
+Print Assumptions C07_user_state_needs_thread_safe_types.
+
+Theorem C07_views_need_shareable_resolvers : forall a i_sync,
+  AutoTrait.view_ok Extracted.node_sync_bounds a i_sync = true -> AutoTrait.deep false a = true /\ i_sync = true.
+Proof.
+  apply (AutoTrait.view_sound_of Extracted.node_send_bounds Extracted.node_sync_bounds Extracted.ctor_resolver_bounds).
+  vm_compute. reflexivity.
+Qed.
+Print Assumptions C07_views_need_shareable_resolvers.
